@@ -41,4 +41,18 @@ theorem reducer_construct_eq (T : TimeOps τ) (c : RedCfg τ) :
       { dt := c.dt, duration := c.duration, incl := c.incl, inplace := c.inplace, dtype := c.dtype,
         data := RecCfg.make T c.dt c.duration c.incl } := rfl
 
+theorem delayM_setDt_ok [DecidableEq τ] {T : TimeOps τ} {d d' : DelayM τ} {v : τ}
+    (h : d.setDt T v = .ok d') : d'.delay = d.delay := by
+  unfold DelayM.setDt at h
+  split at h
+  · cases h
+  · split at h <;> cases h <;> rfl
+
+theorem delayM_setDelay_ok [DecidableEq τ] {T : TimeOps τ} {d d' : DelayM τ} {v : τ}
+    (h : d.setDelay T v = .ok d') : d'.dt = d.dt := by
+  unfold DelayM.setDelay at h
+  split at h
+  · cases h
+  · split at h <;> cases h <;> rfl
+
 end InfernoVerif.Config
